@@ -13,6 +13,8 @@ usage: eval_seeds.py setup | eval_seeds.py run <id>[:k] ... [--checks C01,C02,..
 import json, os, shutil, subprocess, sys, time, re
 
 EV = "/tmp/ev"
+SEEDS = os.environ.get("SEEDS_DIR", "/tmp/seeds")
+TAG = os.environ.get("SEEDS_TAG", "")  # e.g. "r2-" for the second round
 REPO = f"{EV}/repo"
 VERIF = f"{EV}/verif"
 ENV = dict(os.environ, CARGO_NET_OFFLINE="true", CARGO_TARGET_DIR=f"{EV}/repo-target")
@@ -63,7 +65,7 @@ def sync_verif():
                 open(p, "w").write(s2)
 
 def eval_seed(pid, k, checks):
-    sdir = f"/tmp/seeds/{pid}"
+    sdir = f"{SEEDS}/{pid}"
     patch = f"{sdir}/patch{k}.diff"
     demo = f"{sdir}/demo{k}.rs"
     meta = {"property": pid, "k": k, "patch": patch, "at": time.strftime("%Y-%m-%dT%H:%M:%S"), "repo_head": sh("git rev-parse --short HEAD", cwd=REPO)[1].strip()}
@@ -134,15 +136,15 @@ def main():
         for k in ([int(ks)] if ks else [1, 2, 3]):
             checks = checks_override or [c for c in RELATED.get(pid, [pid]) if c in claimed]
             m = eval_seed(pid, k, checks)
-            out = f"/verif/seeded/{pid}-{k}"
-            print(f"== {pid}-{k}: {m.get('status')} caught_by={m.get('caught_by')} tests={m.get('existing_tests_with_patch',{}).get('ok')} demo_fails={m.get('demo_with_patch_fails')} demo_pristine={m.get('demo_pristine_passes')}", flush=True)
+            out = f"/verif/seeded/{pid}-{TAG}{k}"
+            print(f"== {pid}-{TAG}{k}: {m.get('status')} caught_by={m.get('caught_by')} tests={m.get('existing_tests_with_patch',{}).get('ok')} demo_fails={m.get('demo_with_patch_fails')} demo_pristine={m.get('demo_pristine_passes')}", flush=True)
             for c, r in m.get("checks", {}).items():
                 print(f"     {c}: {'VIOLATION' if r['violation'] else ('BUILD-FAILED' if r['build_failed'] else 'silent')} ({r['secs']}s) {r['detail'][:300]}", flush=True)
             os.makedirs(out, exist_ok=True)
             if os.path.exists(m["patch"]):
                 shutil.copy(m["patch"], f"{out}/patch.diff")
-                shutil.copy(f"/tmp/seeds/{pid}/demo{k}.rs", f"{out}/demo.rs")
-            notes = f"/tmp/seeds/{pid}/notes.md"
+                shutil.copy(f"{SEEDS}/{pid}/demo{k}.rs", f"{out}/demo.rs")
+            notes = f"{SEEDS}/{pid}/notes.md"
             if os.path.exists(notes):
                 shutil.copy(notes, f"{out}/agent-notes.md")
             json.dump(m, open(f"{out}/meta.json", "w"), indent=1)
